@@ -68,6 +68,14 @@ func main() {
 	flag.StringVar(&verifDir, "verif", "/verif", "verif root")
 	cpuprof := flag.String("cpuprofile", "", "write cpu profile")
 	flag.Parse()
+	if os.Getenv("VERIF_STACKDUMP") != "" {
+		go func() {
+			d, _ := strconv.Atoi(os.Getenv("VERIF_STACKDUMP"))
+			time.Sleep(time.Duration(d) * time.Second)
+			pprof.Lookup("goroutine").WriteTo(os.Stderr, 1)
+			os.Exit(3)
+		}()
+	}
 	if *cpuprof != "" {
 		f, _ := os.Create(*cpuprof)
 		pprof.StartCPUProfile(f)
